@@ -112,7 +112,8 @@ type Event struct {
 }
 
 type Sim struct {
-	mu QuietMutex
+	mu    QuietMutex
+	goSeq int
 	// Batch / BatchWindow: run all events enabled within the window before the
 	// next quiescence point (concurrent engines only; not replayable)
 	Batch       bool
@@ -185,6 +186,18 @@ func (s *Sim) Logf(format string, a ...any) uint64 {
 	copy(s.hash[:], h.Sum(nil))
 	if s.LogOn {
 		s.log = append(s.log, fmt.Sprintf("%06d t=%-12v %s", s.seq, s.Now(), line))
+	}
+	return s.seq
+}
+
+// LogfQuiet records a line with its place in the event sequence but outside
+// the trace hash (see simdb.Server.logq).
+func (s *Sim) LogfQuiet(format string, a ...any) uint64 {
+	s.mu.Lock()
+	defer s.mu.Unlock()
+	s.seq++
+	if s.LogOn {
+		s.log = append(s.log, fmt.Sprintf("%06d t=%-12v %s", s.seq, s.Now(), fmt.Sprintf(format, a...)))
 	}
 	return s.seq
 }
@@ -313,6 +326,8 @@ func (s *Sim) ParkAfter(key string, d time.Duration, desc string) {
 func (s *Sim) Go(name string, f func()) {
 	s.mu.Lock()
 	s.actors++
+	s.goSeq++
+	startKey := fmt.Sprintf("actor-start|%s|%06d", name, s.goSeq)
 	s.mu.Unlock()
 	go func() {
 		defer func() {
@@ -324,6 +339,10 @@ func (s *Sim) Go(name string, f func()) {
 			default:
 			}
 		}()
+		// an actor starts at a scheduling point of its own: two actors started
+		// together would otherwise race to their first unscheduled effect (e.g.
+		// opening a database connection, whose id then depends on who was first)
+		s.Park(startKey, "")
 		f()
 	}()
 }
